@@ -269,17 +269,23 @@ def comp_case(draw, variant):
     v2 = dict(v1, vals=[None if x is None else abs(x) + 1 for x in v1["vals"]])
     if which == "density_values":
         v1 = dict(v1, vals=[None if x is None else abs(x) + 1 for x in v1["vals"]])
-    return {"n": n, "keys": keys, "vals": [v1, v2], "which": which, "mask": draw(S.mask_spec(n, kinds=("none", "none", "bool", "slice"))), "sort": True}
+    return {"n": n, "keys": keys, "vals": [v1, v2], "which": which, "mask": draw(S.mask_spec(n, kinds=("none", "none", "bool", "slice"))), "sort": True,
+            # how the two value inputs are handed over: arrays, or pandas Series with the same / different / no names
+            "names": draw(st.sampled_from(["np", "np", "same", "different", "unnamed"]))}
 
 
 def comp_check(case, ctx):
     n, which = case["n"], case["which"]
     keys = [data.render_key(k, "np") for k in case["keys"]]
     a1, a2 = data.val_numpy(case["vals"][0]), data.val_numpy(case["vals"][1])
+    nm_ = case.get("names", "np")
+    if nm_ != "np":
+        a1 = pd.Series(a1, name={"same": "price", "different": "num", "unnamed": None}[nm_])
+        a2 = pd.Series(a2, name={"same": "price", "different": "den", "unnamed": None}[nm_])
     mask = data.render_mask(case["mask"], n)
     gb = GroupBy(keys[0] if len(keys) == 1 else keys)
     labels, pos, groups = gbops.model_groups(case)
-    ctx.seen("composite", case, len(groups) >= 2, [f"comp:{which}", "comp:mask:" + (case["mask"]["kind"] if case["mask"] else "none")])
+    ctx.seen("composite", case, len(groups) >= 2, [f"comp:{which}", "comp:mask:" + (case["mask"]["kind"] if case["mask"] else "none"), f"comp:names:{nm_}"])
     if which == "agg":
         funcs = ["sum", "max", "count", "mean"]
         res = gb.agg(a1, agg_func=funcs, mask=mask)
